@@ -603,7 +603,17 @@ pub fn prepare_raw_line(raw_line: &str, prefix_length: usize, config: &config::C
     // Like `prepare`: the prefix is removed before tabs are expanded (a tab among the prefix
     // columns would otherwise leave some of its blanks behind, and the text would differ from
     // the one `prepare` makes of the same line).
-    let line = ansi::ansi_preserving_slice(raw_line, prefix_length);
+    // (the prefix is measured as `prepare` / `tabs::remove_prefix_and_expand` measures it: in
+    // bytes when it is ASCII, else in grapheme clusters; the slice wants bytes of text)
+    use unicode_segmentation::UnicodeSegmentation;
+    let text = ansi::strip_ansi_codes(raw_line);
+    let prefix_bytes: usize =
+        if text.len() >= prefix_length && text.as_bytes()[..prefix_length].is_ascii() {
+            prefix_length
+        } else {
+            text.graphemes(true).take(prefix_length).map(str::len).sum()
+        };
+    let line = ansi::ansi_preserving_slice(raw_line, prefix_bytes);
     let mut line = tabs::expand(&line, &config.tab_cfg);
     line.push('\n');
     line
